@@ -158,16 +158,18 @@ func SendIndexSuccess(ctx *fasthttp.RequestCtx, request map[string]interface{}, 
 
 	var docResp utils.DocIndexedResponse
 
-	if val, pres := request["_type"]; pres {
-		docResp.Type = val.(string)
+	// These come from the document body, so they can be of any JSON type; only a
+	// string is echoed in the response.
+	if val, ok := request["_type"].(string); ok {
+		docResp.Type = val
 	}
 
-	if val, pres := request["_index"]; pres {
-		docResp.Index = val.(string)
+	if val, ok := request["_index"].(string); ok {
+		docResp.Index = val
 	}
 
-	if val, pres := request["_id"]; pres {
-		docResp.Id = val.(string)
+	if val, ok := request["_id"].(string); ok {
+		docResp.Id = val
 	}
 
 	docResp.Version = 1
